@@ -7,6 +7,11 @@ Model: Model/Chunks.lean (hand-written; tied to `join_chunks`, `fixij`,
 `read_ET_group_or_var` and the restart choice of `read_data` by the
 correspondence of tools/props/C11.py) + Gen/VarMaps.lean (regenerated from
 var_mappings.yml and the name-translation functions on every run).
+
+Continued in Props/C11b.lean (T8: exact characterisation of the dictionaries
+`join_chunks` accepts, class X; T5': restart selection and row alignment for
+any number of restarts, with and without checkpoints) and Props/C11c.lean
+(checkpoint reading path).
 -/
 import AurelVerif.Lemmas.Chunks
 import AurelVerif.Gen.VarMaps
